@@ -23,7 +23,31 @@ def run(ctx):
     return [
         refine.refine_batch(ctx, ctx.size(120, 1500), force=FORCE, pid=PID, name="trace-refinement(Tree.step vs DemeTree.run)"),
         runs.monitor_batch(ctx, PID, ctx.size(250, 3000), force=FORCE),
+        # filters that look at demes of other parents / other levels: deep trees, repeated bests
+        refine.refine_batch(ctx, ctx.size(40, 400), salt=37, force=_deep_chains, pid=PID, name="trace-refinement(3-level trees, best-per-deme / NBC generators, SkipSameSprout + LevelLimit chains)"),
     ]
+
+
+def _deep_chains(rng):
+    """three levels, population engines with few generations (a deme's best often repeats), user-composed
+    chains in which SkipSameSprout and LevelLimit see candidates of several parents on two levels"""
+    eng = {0: ["sea", "seax", "de", "shade"], 1: ["sea", "de", "shade", "cma"], 2: ["sea", "de", "cma", "local"]}
+    tf = [["skipsame", "levellimit"], ["levellimit", "skipsame"], ["skipsame", "levellimit", "skipsame"]][int(rng.integers(0, 3))]
+    sprout = {
+        "kind": "custom",
+        "generator": str(rng.choice(["best", "best", "nbc"])),
+        "gen_dist_factor": float(rng.uniform(1, 2.5)),
+        "trunc_factor": float(rng.choice([0.7, 1.0])),
+        "deme_filters": [f for f in ["far", "demelimit"] if rng.random() < 0.4],
+        "far_enough": float(rng.uniform(0.02, 0.2)),
+        "fil_dist_factor": float(rng.uniform(0.3, 2)),
+        "norm_ord": 2,
+        "check_only_active": bool(rng.random() < 0.5),
+        "deme_limit": int(rng.integers(1, 3)),
+        "tree_filters": tf,
+        "level_limit": int(rng.integers(2, 5)),
+    }
+    return {"nlev": 3, "engines": eng, "sprout": sprout, "gsc": {"kind": "MetaepochLimit", "limit": int(rng.integers(5, 10))}}
 
 
 def search(ctx, broken):
